@@ -249,7 +249,7 @@ func runC10(r *evid.Run) {
 	// ---- 1. exhaustive TLC on the implementation-level model + refinement ------------------
 	cfgs := []string{"MCTopology_a.cfg", "MCTopology_b.cfg"}
 	if r.Thorough() {
-		cfgs = append(cfgs, "MCTopology_c.cfg", "MCTopology_d.cfg")
+		cfgs = append(cfgs, "MCTopology_d.cfg") // (_c, two processors, does not finish within the time limit: about 5 M transitions after 15 min)
 	}
 	type mcOut struct {
 		res *tlc.Result
